@@ -161,8 +161,8 @@ def run(case, bct, REC):
         else:
             for itr in (0, 1, 5):
                 one(REC, bct, f, W, {'itr': itr}, rngmod.make_rng(d))
-    if n <= 9:
-        a = (1, .5) if f.startswith('null_model') else (1,)
+    if n <= 9 and not f.startswith('null_model'):   # (the null models rank float strength products: a strided sum may flip a tie)
+        a = (1,)
         layout_variants_agree(REC, PROP, f, getattr(bct, f), W, args=a, make_kwargs=lambda: {'seed': rngmod.make_rng({'kind': 'spy', 'seed': 3})})
     REC.sample(PROP, {'kind': 'single', 'f': f, 'W': W if n <= 7 else [case['n'], case['dens'], case['scheme'], case['ms']],
                       'rngs': descrs})
